@@ -1,4 +1,5 @@
 import GomlVerif.Model.Resolve
+import GomlVerif.Lemmas.LowerOkFile
 /-!
 # C05 — names resolve lexically: innermost binding wins and bindings never leak
 
@@ -621,3 +622,35 @@ example : (resolveFn noGlobals [("a", 1), ("a", 2)]
       .bind 4 7, .bind 5 8, .use 9 (.loc 5) ] := by decide
 
 end Goml.Resolve
+
+/-! ## Lowering composed with resolution (round 11): no `conOk` hypothesis left
+
+`conOk*` was the hypothesis under which the resolver model refines the specification, evaluated per case on the real
+AST.  `Model/Lower.lean` (tied to `crates/ast/src/lower.rs` on the real rowan tree of every text) produces only ASTs
+that satisfy it (`Lemmas/LowerOkFile.lean`, `ok_lowerFile`), so for every function and method of every lowered file
+the resolver model and the specification agree outright. -/
+namespace Goml.Lower
+open Goml.Src
+
+/-- **`lowered_file_resolves_as_spec`.** For EVERY tree `file`: take any function `f` of the file the lowering model
+builds from it — a top-level function or a method of an `impl` block — and resolve its body (as the scope tree
+`scopeOf f.body`, parameters `ps` spelled as `f`'s parameters, any tags) against the file's own constructor set and
+any set `D` of definitions: the resolver MODEL (one mutable environment, save / restore) emits exactly the events of
+the SPECIFICATION (environment passed down only) and hands out the same ids.  No `conOk` hypothesis: it is discharged by
+`lower_ctor_iff` for whole files. -/
+theorem lowered_file_resolves_as_spec (file : Cst) (D : List String) (f : FnDef)
+    (hf : Item.fn f ∈ (lowerFile file).built.items ∨
+          ∃ d, Item.impl d ∈ (lowerFile file).built.items ∧ f ∈ d.methods)
+    (ps : List (String × Nat)) (hps : ps.map (·.1) = f.params.map (·.1)) :
+    (Resolve.resolveFn ⟨collectConstructorNames file, D⟩ ps (scopeOf f.body)).out =
+      (Resolve.specFn ⟨collectConstructorNames file, D⟩ ps (scopeOf f.body)).evs ∧
+    (Resolve.resolveFn ⟨collectConstructorNames file, D⟩ ps (scopeOf f.body)).next =
+      (Resolve.specFn ⟨collectConstructorNames file, D⟩ ps (scopeOf f.body)).next := by
+  have h := (ok_lowerFile file (fuelFor file)).2.2
+  have hk : FnOk (collectConstructorNames file) f := by
+    rcases hf with hf | ⟨d, hd, hm⟩
+    · exact h _ hf
+    · exact h _ hd f hm
+  exact Resolve.resolveFn_refines_spec _ ps _ (by rw [hps]; exact conOk_expr D _ _ hk)
+
+end Goml.Lower
